@@ -78,49 +78,94 @@ def mkflow(kind):
     return f
 
 
+# ---- the 17 fields of Model.C47.Field, in that order, and how to read them off a flow
+STRIP = (b"host", b"content-length", b"content-type")       # header lines the library setters rewrite as a side effect
+
+
+def _hdrs(h):
+    return None if h is None else [[k.hex(), v.hex()] for k, v in h.fields if k.lower() not in STRIP]
+
+
+def _msgf(which, attr):
+    def rd(f):
+        m = getattr(f, which, None)
+        if m is None: return None
+        if attr == "headers": return _hdrs(m.headers)
+        if attr == "trailers": return _hdrs(m.trailers)
+        if attr == "content": return None if m.raw_content is None else m.raw_content.hex()
+        return getattr(m.data, attr) if attr in ("port", "status_code") else getattr(m.data, attr).hex()
+    return rd
+
+
+FIELDS = [("req.method", _msgf("request", "method")), ("req.scheme", _msgf("request", "scheme")), ("req.host", lambda f: getattr(getattr(f, "request", None), "host", None)),
+          ("req.path", _msgf("request", "path")), ("req.http_version", _msgf("request", "http_version")), ("req.port", _msgf("request", "port")),
+          ("req.headers", _msgf("request", "headers")), ("req.trailers", _msgf("request", "trailers")), ("req.content", _msgf("request", "content")),
+          ("resp.reason", _msgf("response", "reason")), ("resp.http_version", _msgf("response", "http_version")), ("resp.code", _msgf("response", "status_code")),
+          ("resp.headers", _msgf("response", "headers")), ("resp.trailers", _msgf("response", "trailers")), ("resp.content", _msgf("response", "content")),
+          ("marked", lambda f: f.marked), ("comment", lambda f: f.comment)]
+READ = dict(FIELDS)
+KEY2FIELD = {"code": "code", "method": "method", "scheme": "scheme", "host": "host", "path": "path", "http_version": "http_version",
+             "port": "port", "headers": "headers", "trailers": "trailers", "content": "content", "reason": "reason"}
+
+
+def dig(x):
+    return json.dumps(canon(x), sort_keys=True)
+
+
+def fields_view(f):
+    return [dig(rd(f)) for _, rd in FIELDS]
+
+
 # ---- reference replay: the document as a sequence of primitive setter steps ---------------------------------------
-def _hdr_steps(get_msg, attr, v):
+class St:
+    """one primitive setter step: the thunk, the field it writes and the kind of write (set / clear / add)"""
+    def __init__(self, fn, field, kind): self.fn, self.field, self.kind = fn, field, kind
+    def __call__(self, f): return self.fn(f)
+
+
+def _hdr_steps(get_msg, attr, v, field=None):
     """steps of `headers.clear(); for header in v: headers.add(*header)` (attr == 'headers') or the trailers variant"""
     from mitmproxy import http
     if attr == "headers":
-        steps = [lambda f: get_msg(f).headers.clear()]
+        steps = [St(lambda f: get_msg(f).headers.clear(), field, "clear")]
         tgt = lambda f: get_msg(f).headers
     else:
         def first(f):
             m = get_msg(f)
             if m.trailers is not None: m.trailers.clear()
             else: m.trailers = http.Headers()
-        steps = [first]
+        steps = [St(first, field, "clear")]
         tgt = lambda f: get_msg(f).trailers
     try:
         items = list(iter(v))
     except TypeError:
         def boom(f): iter(v)
-        return steps + [boom]
+        return steps + [St(boom, field, "add")]
     from mitmproxy.tools.web import app
     pair = getattr(app, "_str_pair", lambda h: h)       # the handler's own pair check (absent before the F-C47c fix)
     for h in items:
-        steps.append(lambda f, h=h: tgt(f).add(*pair(h)))
+        steps.append(St(lambda f, h=h: tgt(f).add(*pair(h)), field, "add"))
     return steps
 
 
 def leaf_steps(which, k, v):
     """primitive steps the handler performs for key k of the request/response sub-document (None: unknown key)"""
     get = (lambda f: f.request) if which == "request" else (lambda f: f.response)
+    pre = "req." if which == "request" else "resp."
     if which == "request":
         if k in ("method", "scheme", "host", "path", "http_version"):
-            return [lambda f: setattr(get(f), k, str(v))]
+            return [St(lambda f: setattr(get(f), k, str(v)), pre + k, "set")]
         if k == "port":
-            return [lambda f: setattr(get(f), "port", int(v))]
+            return [St(lambda f: setattr(get(f), "port", int(v)), pre + "port", "set")]
     else:
         if k in ("reason", "http_version"):
-            return [lambda f: setattr(get(f), k, str(v))]
+            return [St(lambda f: setattr(get(f), k, str(v)), pre + k, "set")]
         if k == "code":
-            return [lambda f: setattr(get(f), "status_code", int(v))]
+            return [St(lambda f: setattr(get(f), "status_code", int(v)), pre + "code", "set")]
     if k in ("headers", "trailers"):
-        return _hdr_steps(get, k, v)
+        return _hdr_steps(get, k, v, pre + k)
     if k == "content":
-        return [lambda f: setattr(get(f), "text", v)]
+        return [St(lambda f: setattr(get(f), "text", v), pre + "content", "set")]
     return None
 
 
@@ -136,9 +181,9 @@ def plan(doc, has_req, resp_mode):
             else:
                 out.append((a, None))
         elif a == "marked":
-            out.append(("marked", [lambda f, b=b: setattr(f, "marked", b)]))
+            out.append(("marked", [St(lambda f, b=b: setattr(f, "marked", b), "marked", "set")]))
         elif a == "comment":
-            out.append(("comment", [lambda f, b=b: setattr(f, "comment", b)]))
+            out.append(("comment", [St(lambda f, b=b: setattr(f, "comment", b), "comment", "set")]))
         else:
             out.append(("unknown", None))
     return out
@@ -276,6 +321,8 @@ class Check(PropertyCheck):
         has_req = hasattr(f, "request")
         out = []
         eff = 0
+        vals = {}                       # effect id -> digest of what that write left in its field (set) / the pair it added (add)
+        orig = fields_view(f)
         for doc in case["docs"]:
             resp_mode = 0 if not hasattr(f, "response") else (2 if f.response else 1)
             pl = plan(doc, has_req, resp_mode)
@@ -293,6 +340,11 @@ class Check(PropertyCheck):
                         t += "-"; failed = True
                     else:
                         eff += 1; t += "+%d" % eff; effects.append(eff); done.append(s)
+                        if s.kind == "set": vals[eff] = dig(READ[s.field](scratch))
+                        elif s.kind == "add":
+                            msg = scratch.request if s.field.startswith("req.") else scratch.response
+                            k, v = (msg.headers if s.field.endswith("headers") else msg.trailers).fields[-1]
+                            vals[eff] = None if k.lower() in STRIP else [k.hex(), v.hex()]
                 return t or "_"
             reached_setter = False
             if pl is None:
@@ -324,7 +376,8 @@ class Check(PropertyCheck):
                         if not dispatched: failed = True      # falls through to "Unknown update request: ..."
             all_state = snap(scratch)["state"] if not failed else None
             out.append({"line": "put %d %d %s" % (int(has_req), resp_mode, " ".join(toks) if toks else "."),
-                        "all_state": all_state, "ref_failed": failed, "effects": effects, "reached": reached_setter})
+                        "all_state": all_state, "ref_failed": failed, "effects": effects, "reached": reached_setter,
+                        "vals": vals, "orig": orig})
             if not failed:
                 # commit on the reference flow exactly what the handler is specified to do on success
                 f.backup()
@@ -359,7 +412,7 @@ class Check(PropertyCheck):
                 bl = "other"
                 for j, s in enumerate(hist[:-1]):
                     if s == after["backup"]: bl = "s%d" % j; break
-            steps.append({"status": status, "state": lab, "backup": bl,
+            steps.append({"status": status, "state": lab, "backup": bl, "fields": fields_view(f),
                           "unchanged": after == before, "modified": after["modified"],
                           "body": conn.body[:60].decode("latin-1")})
         w.master.view.clear()
@@ -408,7 +461,7 @@ class Check(PropertyCheck):
         out, curs = [], [[]]
         for rep, r in zip(replies[1:], ref):
             p = rep.split(" ")
-            if len(p) != 3: out.append(rep); continue
+            if len(p) != 4: out.append(rep); continue
             ids = lambda s: [] if s == "-" else [int(x) for x in s.split(",")]
             cur = ids(p[1]); pre = curs[-1]
             if cur == pre + r["effects"] and (r["effects"] or p[0] == "ok"): lab = "all"
@@ -420,11 +473,20 @@ class Check(PropertyCheck):
                 b = ids(p[2]); bl = "other"
                 for j, c in enumerate(curs[:-1]):
                     if c == b: bl = "s%d" % j; break
-            out.append([p[0], lab, bl])
+            # the model's symbolic field values -> digests of the values the reference replay recorded for those effects
+            fv = []
+            for j, lab_f in enumerate(p[3].split(",")):
+                if lab_f == "o": fv.append(r["orig"][j])
+                elif lab_f.startswith("s"): fv.append(r["vals"].get(int(lab_f[1:]), "?"))
+                elif lab_f.startswith("p"):
+                    ids_f = [int(x) for x in lab_f[1:].split(".") if x]
+                    fv.append(dig([r["vals"][i] for i in ids_f if r["vals"].get(i) is not None]))
+                else: fv.append("?" + lab_f)
+            out.append([p[0], lab, bl, fv])
         return out
 
     def impl_view(self, case, obs):
-        return [["ok" if s["status"] == 200 else "refused", s["state"], s["backup"]] for s in obs["steps"]]
+        return [["ok" if s["status"] == 200 else "refused", s["state"], s["backup"], s["fields"]] for s in obs["steps"]]
 
     def classify(self, case, obs):
         return json.dumps(case, sort_keys=True) if any(isinstance(d, dict) and d for d in case["docs"]) else None
